@@ -1098,6 +1098,12 @@ fn check_identifiers(rep: &mut Report, drv: &mut Driver, p: &mut Prng, n: usize)
     for w in ["foo", "_bar", "foo_bar", "foo1234", "Straße", "Москва", "東京", "_", "__", "_1", "é", "loop", "struct", "type", "contains"] {
         words.push((w.to_string(), "manual-example"));
     }
+    // the scan class: ASCII after non-ASCII, continue-only characters (marks, vowel signs,
+    // non-ASCII digits, U+00B7) right after the first character / after an ASCII run, and
+    // words followed by something that ends them
+    for w in ["größe_in_cm", "café_au_lait", "東京2", "verdächtig", "cafe\u{301}", "nai\u{308}ve", "\u{928}\u{93e}\u{92e}", "col·lecció", "n٣", "a\u{301}1é_", "_\u{301}", "é1a\u{301}+x", "Straße(x)", "x٣.y", "a\u{301} b"] {
+        words.push((w.to_string(), "scan-class"));
+    }
     for w in ["12foo", "foo.bar", "1", "a-b", "a b", "😀", "a😀", "\u{301}a", "٣a", "a\u{a0}b", "€", "a€", "", "a'", "#a", "a$"] {
         words.push((w.to_string(), "non-identifier"));
     }
@@ -1121,6 +1127,53 @@ fn check_identifiers(rep: &mut Report, drv: &mut Driver, p: &mut Prng, n: usize)
             let pos = p.below(t.len() as u64 + 1) as usize;
             t.insert(pos, bad);
             words.push((t.into_iter().collect(), "generated-non-xid"));
+        }
+    }
+    // the scan of keyword_or_ident on the GENERATED character tests (Lean, with the crate's
+    // XID predicates sent along) against the real lexer: where does the first word end?
+    let reqs: Vec<String> = words
+        .iter()
+        .map(|(w, _)| {
+            let spec: Vec<String> = w
+                .chars()
+                .map(|c| format!("{}:{}", c as u32, (hook::is_xid_start(c) as u8) | ((hook::is_xid_continue(c) as u8) << 1)))
+                .collect();
+            format!("c09 identscan {}", if spec.is_empty() { "-".to_string() } else { spec.join(",") })
+        })
+        .collect();
+    let scan_ans = drv.ask_all(&reqs);
+    for ((w, _), ans) in words.iter().zip(scan_ans) {
+        rep.evaluations += 1;
+        let lean: Option<usize> = if ans == "none" {
+            None
+        } else if let Some(n) = ans.strip_prefix("some ").and_then(|n| n.trim().parse().ok()) {
+            Some(n)
+        } else {
+            rep.mismatch("identscan: unreadable answer of the Lean driver", json!({"word": w, "lean": ans}));
+            continue;
+        };
+        // the first token of the real lexer (on the longest lexable prefix); None = unknown
+        let first: Option<Option<(String, usize, usize)>> = match hook::tokens(w, false) {
+            Ok(t) => Some(t.first().cloned()),
+            Err(e) => match e.strip_prefix("invalid token at ").and_then(|k| k.parse::<usize>().ok()) {
+                Some(0) => Some(None),
+                Some(k) if w.is_char_boundary(k) => hook::tokens(&w[..k], false).ok().map(|t| t.first().cloned()),
+                _ => None,
+            },
+        };
+        let wordish = |t: &(String, usize, usize)| t.1 == 0 && (t.0.starts_with("Ident(") || t.0.starts_with("Keyword(") || t.0.starts_with("Bool("));
+        let bad = match (&lean, &first) {
+            (None, Some(Some(t))) => wordish(t),
+            (Some(b), Some(Some(t))) => wordish(t) && t.2 != *b,
+            (Some(_), Some(None)) => !w.starts_with(char::is_whitespace),
+            _ => false,
+        };
+        rep.class(format!("identscan|{}|{}", if lean.is_some() { "word" } else { "declined" }, if lean == Some(w.len()) { "whole" } else { "prefix" }));
+        if bad {
+            rep.mismatch(
+                "the identifier scan on the generated character tests ends the word elsewhere than the real lexer",
+                json!({"word": w, "lean": ans, "real_first_token": format!("{first:?}")}),
+            );
         }
     }
     let reqs: Vec<String> = words.iter().map(|(w, _)| format!("c09 kw {}", hexs(w))).collect();
@@ -1424,7 +1477,12 @@ fn main() {
             let seed: u64 = args.get(2).and_then(|s| s.parse().ok()).unwrap_or(1);
             let thorough = args.get(3).map(|s| s == "thorough").unwrap_or(false);
             // parse errors of rejected inputs are results, not noise
-            std::panic::set_hook(Box::new(|_| {}));
+            let trace = std::env::var_os("C09_PANIC_TRACE").is_some();
+            std::panic::set_hook(Box::new(move |i| {
+                if trace {
+                    eprintln!("{i}");
+                }
+            }));
             run(seed, thorough).emit();
         }
         Some("replay") => {
